@@ -140,12 +140,13 @@ class Runner:
     def shrink(self, ctx, case, pred):
         """greedy structure-aware shrinking; pred(ev) says the failure is still there"""
         budget = 400
+        deadline = time.time() + 180          # (a failure that is a hang costs a time-out per accepted candidate)
         improved = True
-        while improved and budget > 0:
+        while improved and budget > 0 and time.time() < deadline:
             improved = False
             for cand in self.prop.shrink(case):
                 budget -= 1
-                if budget <= 0:
+                if budget <= 0 or time.time() > deadline:
                     break
                 try:
                     ev = self.prop.evaluate(ctx, cand)
@@ -198,16 +199,17 @@ class Runner:
         """model and implementation disagree but the judge is ok: look for an input on which the
         property fails (shrunk forms, neighbourhood, extra generator budget)."""
         tried = 0
+        deadline = time.time() + 300       # (candidates on which the implementation hangs cost a time-out each)
         for cand in self.prop.shrink(case):
             tried += 1
-            if tried > 150:
+            if tried > 150 or time.time() > deadline:
                 break
             ev = self.prop.evaluate(ctx, cand)
             if ev.judge:
                 return cand, ev
         for cand in self.prop.neighbours(case, rng):
             tried += 1
-            if tried > 600:
+            if tried > 600 or time.time() > deadline:
                 break
             ev = self.prop.evaluate(ctx, cand)
             if ev.judge:
@@ -216,7 +218,7 @@ class Runner:
         n = 0
         for cand in self.prop.cases(extra, "thorough"):
             n += 1
-            if n > 3000 or time.time() - self.t0 > 600:
+            if n > 3000 or time.time() - self.t0 > 600 or time.time() > deadline:
                 break
             ev = self.prop.evaluate(ctx, cand)
             if ev.judge:
